@@ -198,6 +198,9 @@ class SHADE:
             self._archive = self._archive[random_indices]
         if max(cr) != 0:
             weights = np.abs(fitness[indexes] - c_fitness[indexes])
+            # Infinite fitness values (exhausted evaluation budget, death penalty) carry no usable weight;
+            # without this the memory turns into NaN and the population freezes without evaluating anything.
+            weights[~np.isfinite(weights)] = 0.0
             if np.any(weights != 0):
                 weights /= np.sum(weights)
                 self._m_cr[self._k] = np.sum(weights * cr[indexes])
